@@ -90,6 +90,20 @@ def cases(tier, seed):
         cfg["name"] = "r%02d-%s-%s-%s" % (k, cls, rate.replace(":", "to"), frm)
         cfg["cost"] = 1000
         out.append(cfg)
+    # the same rate oracle at a *realistic* controller clock: the interval is then several hundred to a few thousand cycles
+    # (timer and counter widths, reload arithmetic); 45 intervals, so that a period that is 0.4 % too long exceeds L
+    long_pts = [("IS42S16160", "1:1", 100e6), ("MT48LC4M16", "1:1", 133e6), ("MT46V32M16", "1:2", 100e6), ("IS42S16160", "1:1", 166e6)]
+    for k, (cls, rate, clk) in enumerate(long_pts[seed % 4:] + long_pts[:seed % 4]):
+        if k >= (1 if tier == "quick" else 4):
+            break
+        mem = dict(kind="module", cls=cls, rate=rate, speedgrade=None, fine_refresh_mode=None, clk_freq=clk)
+        cs = dict(cmd_buffer_depth=4, refresh_postponing=1, with_refresh=True)
+        wl = {"class": "idle", "nops": 100000, "master_mode": "fifo", "hot_rows": 2, "hot_cols": 2, "wr_frac": 0.5}
+        cfg = dict(mem=mem, cs=cs, nports=1, workload=wl, seed="C04/ratelong/%d/%d" % (seed, k), family="rate-long",
+                   trefi_override=None, max_cycles=100000, sweep=False)
+        cfg["name"] = "R%02d-%s-%s-%dMHz" % (k, cls, rate.replace(":", "to"), round(clk / 1e6))
+        cfg["cost"] = 2000
+        out.append(cfg)
     return out
 
 
@@ -122,9 +136,16 @@ def run_case(cfg):
         cfg["max_cycles"] = min(60000, n_int * (m["target_cycles"] + 1) + 500)
         cfg["stop_offering_at"] = cfg["max_cycles"] - 400
         cfg["workload"]["nops"] = 100000
+    if fam == "rate-long":
+        phy, geom, timing, _, module = W.build_settings(cfg["mem"])
+        cfg["max_cycles"] = 45 * (timing.tREFI + 1) + 500
+        cfg["stop_offering_at"] = cfg["max_cycles"] - 400
+        cfg["wall_limit"] = 2400
     tr = W.run_case(cfg)
     if tr.reason == "wall":
         return dict(verdict="inconclusive", why="wall-clock watchdog", violations=[], stats={}, nontrivial=False, signature="")
+    if fam == "rate-long":
+        fam = "rate"
     timing, phy = tr.timing, tr.phy
     P = cfg["cs"].get("refresh_postponing", 1)
     L = service_latency(timing, phy, tr.nbanks_total, P)
@@ -148,6 +169,14 @@ def run_case(cfg):
             v.append(dict(kind="refresh-deadline-missed", k=k, t_cycle=t, deadline_cycle=float(deadline), P=P, L=L,
                           interval_cycles=float(interval), interval_given_to_controller=timing.tREFI))
             break
+    # long-run rate (rate families, idle ports): every refresh is issued between its due time and L cycles later, so the mean
+    # spacing of n refreshes can exceed the datasheet interval by at most L/(n-1)
+    if fam == "rate" and len(refs) >= 12 and not v:
+        n = len(refs)
+        mean = Fraction(refs[-1] - refs[0], n - 1)
+        if mean > interval + Fraction(L, n - 1):
+            v.append(dict(kind="refresh-rate-below-datasheet", refreshes=n, mean_spacing_cycles=float(mean), datasheet_interval_cycles=float(interval),
+                          allowed_mean=float(interval + Fraction(L, n - 1)), L=L, interval_given_to_controller=timing.tREFI))
     # the horizon itself: refreshes that should already have happened by the end of the run
     horizon = tr.cycles
     owed = math.floor((horizon - L) / interval) - P
@@ -219,7 +248,9 @@ def run_case(cfg):
               interval_given_to_controller=timing.tREFI, sequences_ok=seq_ok, refresh_bursts=len(bursts), resumed=resumed,
               cycles=tr.cycles, accepted=sum(len(m.accepted) for m in tr.masters), clk_freq=tr.clk_freq)
     nontrivial = len(refs) >= 10
-    if fam == "rate":
+    if cfg["family"] == "rate-long":
+        nontrivial = len(refs) >= 30
+    if fam == "rate" and cfg["family"] != "rate-long":
         frac = 1 - float(interval - math.floor(interval))
         st["drift_budget_cycles"] = len(refs) * frac
         nontrivial = nontrivial and len(refs) * frac > L + float(interval)
